@@ -196,6 +196,18 @@ def family_configs(fam, centres, tier):
                 yield {'cls': 'circleannulus', 'center': ci, 'inner_radius': h // 2, 'outer_radius': max(w, h), 'size_dtype': dt}, allm
                 yield {'cls': 'ellipse', 'center': ci, 'width': w, 'height': h, 'angle': A[1][1], 'adeg': A[1][0], 'size_dtype': dt}, allm
                 yield {'cls': 'rectangle', 'center': ci, 'width': w, 'height': h, 'angle': A[1][1], 'adeg': A[1][0], 'size_dtype': dt}, allm
+            # polygons whose integral vertices arrive in a numpy integer type and reach the ends of its range
+            if c == [float(centres[0][0]), float(centres[0][1])]:
+                for dt in ('uint8', 'int8', 'int16', 'uint16', 'int32', 'int64'):
+                    info = np.iinfo(getattr(np, dt))
+                    lo, hi = int(info.min), int(info.max)
+                    boxes = [(hi - 5, hi, hi - 3, hi), (lo, lo + 4, lo, lo + 6), (lo, hi, hi - 2, hi) if hi < 2 ** 20 else (hi - 9, hi, lo, lo + 2),
+                             (3, 9, 2, 7)]
+                    if dt == 'int64':
+                        boxes = boxes[3:]       # the ends of the int64 range are not representable pixel positions
+                    for (x0, x1, y0, y1) in boxes:
+                        yield {'cls': 'polygon', 'vertices': [[x0, x1, x1, x0], [y0, y0, y1, y1]], 'vertex_dtype': dt, 'name': 'int_box'}, allm
+                        yield {'cls': 'polygon', 'vertices': [[x0, x1, x0], [y0, y1, y1]], 'vertex_dtype': dt, 'name': 'int_triangle'}, allm
             for r in S:
                 yield {'cls': 'circle', 'center': c, 'radius': r}, allm
             for ri in S:
@@ -220,6 +232,11 @@ def family_configs(fam, centres, tier):
                     for op in ('and', 'or', 'xor'):
                         yield {'cls': 'compound', 'op': op, 'r1': r1, 'r2': r2}, allm
                         yield {'cls': 'compound', 'op': op, 'r1': r2, 'r2': r1}, allm
+                        if r2['cls'] != 'compound' and op == 'and':
+                            # an operand marked as excluded (include=False): "r1 and not r2" is bounded, and the compound's box
+                            # is still the union of the operand boxes (with 'or' the region would be unbounded: no box)
+                            yield {'cls': 'compound', 'op': op, 'r1': r1, 'r2': dict(r2, include=False)}, allm
+                            yield {'cls': 'compound', 'op': op, 'r1': dict(r2, include=False), 'r2': r1}, allm
         else:
             raise ValueError(fam)
 
